@@ -122,6 +122,7 @@ func (d *MsgPipeline) Start(ctx context.Context, msgMeta *module.MsgMetadata, ma
 		d:                  d,
 		rcptModifiersState: make(map[*rcptBlock]module.ModifierState),
 		deliveries:         make(map[module.DeliveryTarget]*delivery),
+		rewrittenRcpts:     make(map[string]string),
 		msgMeta:            msgMeta,
 		log:                target.DeliveryLogger(d.Log, msgMeta),
 	}
@@ -275,6 +276,11 @@ type msgpipelineDelivery struct {
 	deliveries  map[module.DeliveryTarget]*delivery
 	msgMeta     *module.MsgMetadata
 	checkRunner *checkRunner
+
+	// Recipient rewrites done by this delivery (rewritten address => address
+	// AddRcpt was called with). Unlike msgMeta.OriginalRcpts, it does not
+	// include rewrites done before the message got here (e.g. before a queue).
+	rewrittenRcpts map[string]string
 }
 
 func (dd *msgpipelineDelivery) AddRcpt(ctx context.Context, to string, opts smtp.RcptOptions) error {
@@ -347,6 +353,7 @@ func (dd *msgpipelineDelivery) AddRcpt(ctx context.Context, to string, opts smtp
 
 			if originalTo != to {
 				dd.msgMeta.OriginalRcpts[to] = originalTo
+				dd.rewrittenRcpts[to] = originalTo
 			}
 
 			for _, tgt := range rcptBlock.targets {
@@ -499,7 +506,7 @@ func (dd *msgpipelineDelivery) BodyNonAtomic(ctx context.Context, c module.Statu
 		partDelivery, ok := delivery.Delivery.(module.PartialDelivery)
 		if ok {
 			partDelivery.BodyNonAtomic(ctx, statusCollector{
-				originalRcpts: dd.msgMeta.OriginalRcpts,
+				originalRcpts: dd.rewrittenRcpts,
 				wrapped:       c,
 			}, header, body)
 			continue
